@@ -384,6 +384,20 @@ def retract_cases(seed):
                  "at 0 : wr f1 2", "at 2 : wr f1 1 ; wr f0 1",
                  f"do reg f0 100 ; try f1 {Fa} ; heal f1 ; reg f1 {Fb} ; trel t0 30000000", "main"]
             cases.append((f"reregister-{METHOD_NAME[m]}-{k}", L))
+        # failed registration attempt, after which the caller releases the object (free) or the descriptor number comes to life for
+        # ANOTHER object; then earlier-registered descriptors go away (table compaction), others are added, and events arrive on the number:
+        # the library must have kept nothing of the failed attempt (no table slot, no pointer to the caller's object, no kernel interest)
+        for k, after in enumerate(["free f1", "free f1 ; heal f1", "heal f1", "nop"]):
+            for j, tail in enumerate(["unreg f0", "unreg f0 ; unreg f2", "setin f0 0 ; setin f2 0", "unreg f2 ; reg f3 100 ; unreg f0"]):
+                L = ([f"exclude {m}"] if m else []) + ["cfg waitlimit=10 cblimit=100", "obj fd f0 sock", "obj fd f1 bad", "obj fd f2 sock", "obj fd f3 sock",
+                     "obj timer t0", "obj timer t1", "on f0.in * : rd f0", "on f2.in * : rd f2", "on f3.in * : rd f3", f"on t0 1 : {tail}",
+                     "on t1 1 : ?unreg f0 ; ?unreg f2 ; ?unreg f3", "at 0 : wr f0 1 ; wr f2 1", "at 2 : wr f2 1 ; wr f3 1",
+                     f"do reg f0 100 ; reg f2 100 ; try f1 110 ; {after} ; trel t0 3000000 ; trel t1 30000000", "main"]
+                cases.append((f"tryfail-{METHOD_NAME[m]}-{k}-{j}", L))
+                # the same with the table compaction done right away (before the loop ever polls)
+                L2 = [l for l in L if not l.startswith("on t0 ")]
+                L2[-2] = f"do reg f0 100 ; reg f2 100 ; try f1 110 ; {after} ; {tail} ; trel t1 30000000"
+                cases.append((f"tryfail-{METHOD_NAME[m]}-{k}-{j}-now", L2))
     return cases
 
 
@@ -424,6 +438,25 @@ def ktimer_cases(seed, methods=METHODS):
                 L.append(f"at {k} : {stim}")
                 L += ["do reg f0 100 ; evreg e0 ; trel t0 60000000 ; trel t2 90000000 ; trel t9 2000000000", "main"]
                 cases.append((f"ktimer-{METHOD_NAME[m]}-k{k}-late{vi}", L))
+        # the armed kernel timer outlives its reason: the pending timer is unregistered (no timer left) after k wake-ups, the loop then
+        # idles until the stale kernel timer goes off with an empty timer set, and only afterwards a handler registers a new timer
+        # (sooner / later than the spent expiry); it must fire on time
+        for k in (4, 5, 6, 8):
+            for vi, (d, idle) in enumerate([(5000000, 1), (90000000, 1), (5000000, 3), (1000, 1)]):
+                L = ([f"exclude {m}"] if m else []) + ["cfg waitlimit=40 cblimit=300", "obj fd f0 sock", "obj fd f1 sock", "obj timer t0", "obj timer t1",
+                     "on f0.in * : rd f0", f"on f0.in {k} : rd f0 ; ?tunreg t0", f"on f0.in {k + 1} : rd f0 ; trel t1 {d}", "on t1 1 : ?unreg f0 ; ?unreg f1"]
+                for w in range(k):
+                    L.append(f"at {w} : wr f0 1")
+                L.append(f"at {k + idle} : wr f0 1")
+                L += ["do reg f0 100 ; reg f1 100 ; trel t0 60000000", "main"]
+                cases.append((f"ktimer-{METHOD_NAME[m]}-k{k}-spent{vi}", L))
+        # deadlines whose distance from `now` is not a whole number of milliseconds, with no other activity: millisecond-granular waits
+        # (poll, epoll_wait fallback) must round up, so that one wake-up suffices
+        for vi, d in enumerate([20900000, 1000001, 999999, 1, 2000500, 1999999999]):
+            for cfg in ("", " nopwait2"):
+                L = ([f"exclude {m}"] if m else []) + [f"cfg waitlimit=30 cblimit=60{cfg}", "obj timer t0", "obj timer t1", f"on t0 1 : trel t1 {d}",
+                                                      f"do trel t0 {d}", "main"]
+                cases.append((f"ktimer-{METHOD_NAME[m]}-subms{vi}{cfg.strip()}", L))
     return cases
 
 
@@ -444,4 +477,49 @@ def quit_cases():
         }
         for name, body in variants.items():
             cases.append((f"quit-{METHOD_NAME[m]}-{name}", pre + body))
+        # iv_quit() from a handler while other work of the SAME iteration / round is still undelivered, then iv_main() re-entered:
+        # nothing that was due may be lost across the return (descriptors still ready must be reported again, tasks stay queued)
+        x = ([f"exclude {m}"] if m else []) + ["cfg waitlimit=14 cblimit=80", "obj fd f0 sock", "obj fd f1 sock", "obj fd f2 sock", "obj timer t9",
+             "obj task k1", "obj task k2", "obj task k3", "on t9 1 : ?unreg f0 ; ?unreg f1 ; ?unreg f2 ; ?kunreg k1 ; ?kunreg k2 ; ?kunreg k3"]
+        for q in ("0", "1", "2", "012"):
+            body = [f"on f{i}.in * : rd f{i}" for i in range(3) if str(i) not in q] + [f"on f{i}.in 1 : quit" for i in range(3) if str(i) in q] + \
+                   [f"on f{i}.in 2 : rd f{i}" for i in range(3) if str(i) in q] + \
+                   ["do reg f0 100 ; reg f1 100 ; reg f2 100 ; wr f0 1 ; wr f1 1 ; wr f2 1 ; trel t9 50000000", "main", "main", "do wr f0 1 ; wr f1 1 ; wr f2 1", "main", "main"]
+            cases.append((f"quit-{METHOD_NAME[m]}-batch-fd-{q}", x + body))
+        for vi, hs in enumerate([
+                ["on k1 1 : kreg k1", "on k2 1 : quit"],
+                ["on k1 1 : kreg k1", "on k2 1 : quit ; kreg k2"],
+                ["on k1 1 : quit ; kreg k1"],
+                ["on k1 1 : kreg k1 ; kreg k3", "on k2 1 : kreg k1 ; quit"],
+                ["on k1 1 : kreg k1", "on k2 1 : kreg k2", "on k3 1 : quit"],
+                ["on k2 1 : quit ; kunreg k3 ; kreg k3"]]):
+            cases.append((f"quit-{METHOD_NAME[m]}-task-round-{vi}", x + hs + ["do kreg k1 ; kreg k2 ; kreg k3 ; trel t9 50000000", "main", "main", "main"]))
     return cases
+
+
+def erronly_cases():
+    """(C02/C03/C15) Enumerated: a descriptor whose only handler is the error handler (wanted bands {err}), reached from no handlers /
+    from in+err / from registration, and left again, with the error or hang-up arising before or after each transition; every method
+    must report it exactly while the error handler is set."""
+    cases = []
+    for m in METHODS:
+        pre = ([f"exclude {m}"] if m else []) + ["cfg waitlimit=12 cblimit=60", "obj fd f0 sock", "obj fd f1 sock", "obj timer t9",
+                                              "on f0.err * : unreg f0", "on f1.in * : rd f1", "on t9 1 : ?unreg f0 ; ?unreg f1"]
+        variants = {
+            "reg-erronly-then-hup": ["do reg f0 001 ; reg f1 100 ; trel t9 50000000", "at 0 : wr f1 1", "at 1 : closepeer f0", "main"],
+            "reg-none-then-erronly": ["do reg f0 000 ; reg f1 100 ; trel t9 50000000", "at 0 : wr f1 1", "on f1.in 1 : rd f1 ; seterr f0 1", "at 1 : closepeer f0", "main"],
+            "hup-then-erronly": ["do reg f0 000 ; reg f1 100 ; closepeer f0 ; trel t9 50000000", "at 0 : wr f1 1", "on f1.in 1 : rd f1 ; seterr f0 1", "main"],
+            "inerr-to-erronly": ["do reg f0 101 ; reg f1 100 ; trel t9 50000000", "on f0.in * : rd f0", "at 0 : wr f1 1", "on f1.in 1 : rd f1 ; setin f0 0", "at 1 : closepeer f0", "main"],
+            "erronly-to-none-then-hup": ["do reg f0 001 ; reg f1 100 ; trel t9 50000000", "at 0 : wr f1 1", "on f1.in 1 : rd f1 ; seterr f0 0", "at 1 : closepeer f0",
+                                         "at 2 : wr f1 1", "on f1.in 2 : rd f1 ; seterr f0 1", "main"],
+            "erronly-unreg-reuse": ["do reg f0 001 ; reg f1 100 ; trel t9 50000000", "at 0 : wr f1 1", "on f1.in 1 : rd f1 ; unreg f0 ; reg f0 001", "at 1 : closepeer f0", "main"],
+        }
+        for name, body in variants.items():
+            cases.append((f"erronly-{METHOD_NAME[m]}-{name}", pre + body))
+    return cases
+
+
+ENUM_RULE = ("; plus the ENUMERATED families 'erronly' (24 scenarios: a descriptor whose only handler is the error handler, reached and left by every "
+             "transition, hang-up before/after, 4 methods) and 'quit' (56 scenarios: iv_quit outside iv_main; iv_quit from a descriptor handler while "
+             "other descriptors of the same iteration are undelivered, and from a task while later and deferred tasks of the round are pending, then "
+             "iv_main re-entered: nothing due may be lost across the return; 4 methods)")
